@@ -12,6 +12,7 @@ on ASCII strings without placeholder braces (the protocol's domain; `strings.ToL
 `netip.ParseAddr` says about the resulting host stays a table (`IpClass`).
 -/
 import CaddyModel.C13.Model
+import CaddyModel.C18.Model
 
 namespace CaddyModel.C13
 
@@ -141,6 +142,15 @@ def parseNetworkAddress (input : Bytes) : ListenRes :=
 /-- `parseAdminListenAddr(addr, defaultAddr)` (the replacer is the identity on brace-free strings) -/
 def parseAdminListenAddr (addr dflt : Bytes) : ListenRes :=
   parseNetworkAddress (if addr = [] then dflt else addr)
+
+/-- `parseAdminListenAddr` with its first statement, `NewReplacer().ReplaceOrErr(addr, true, true)`
+    (the replacer is the C18 model; `env` = the global placeholder providers): an unknown
+    placeholder, or one that expands to nothing, is an ERROR — the endpoint does not start — and
+    not an empty host, which would be the wildcard interface. -/
+def parseAdminListenAddrP (env : C18.Env) (addr dflt : Bytes) : ListenRes :=
+  match C18.replaceOrErr addr true true env with
+  | .ok input => parseNetworkAddress (if input = [] then dflt else input)
+  | _ => .err
 
 /-- `replaceLocalAdminServer` up to the handler: parse `admin.listen` (or the default), build the
     handler for that address; `none` = the endpoint does not start.  `ip` is netip's verdict on the
